@@ -54,3 +54,13 @@ check('C16',
       'evaluated) are run on the real evaluator (3.0, 3.1) and compared with the reference interpreter.',
       'reference mc/models/seqlang.py; error codes are not compared (only value versus error)',
       'DESIGN.md section 3 C16')
+check('C05',
+      'explicit-state exploration of operation histories on one Selector/token with a fresh-evaluation differential; enumeration of scoping programs',
+      'For each of ~80 expressions (paths, date/time arithmetic on timezone-less variables, maps/arrays, inline functions, for/let/quantifiers '
+      'shadowing caller variables, collation functions): every history of depth 2 (quick) / 3 (thorough) over {select, iter_select consumed, '
+      'iter_select abandoned, token evaluate} x {lxml/xml.etree document, two variable maps, implicit timezone} is run on ONE shared Selector and '
+      'token; after every step the result must equal a fresh parser on deep copies and the documents, variable values (tzinfo included), variable '
+      'and namespace dicts must be unchanged. All binding programs (for/let/some/every/inline function) up to nesting depth 2/3 over names {x,y} '
+      'with reads after each construct are compared with an environment-passing interpreter (XPST0008 for unbound reads).',
+      'node results compared by position in the document computed by the harness; current date/time fixed; reference mc/models/seqlang.py',
+      'DESIGN.md section 3 C05')
